@@ -322,7 +322,7 @@ PSFN = ["object::function::PsFunc::exec", "object::function::PsFunc::exec_inner"
 ROT_GUARD = [r"^core::slice::<impl \[f32\]>::rotate_(right|left)$"]
 for l_ in (0, 1, 2, 3):
     ob("func_ps_ops_l%d" % l_, ["C14"], "func.rs", unwind=8, cuts=X1_ERR, stubs=[FMT_STUB], timeout=900, mem_gb=12, functions=PSFN,
-       bound="stack of %d arbitrary f32 values; dup exch add sub mul abs pop cvr, integer and real literals with arbitrary values; "
+       bound="stack of %d integer-valued f32 operands (every i16); dup exch add sub mul abs pop cvr; integer and real literals with arbitrary values; "
              "wrong output length" % l_)
 for l_ in (0, 2, 3):
     ob("func_ps_index_l%d" % l_, ["C14"], "func.rs", unwind=8, cuts=X1_ERR, stubs=[FMT_STUB], timeout=900, mem_gb=12, functions=PSFN,
